@@ -62,7 +62,7 @@ def describe(tier):
 def plan(tier, seed):
     units = [("urlA", tier, i) for i in range(len(SCHEMES) * len(USERINFO))]
     units += [("urlB", tier, i) for i in range(len(SEGS) + 1)]
-    units += [("win", tier, i) for i in range(len(WIN_PREFIX))]
+    units += [("win", tier, i) for i in range(len(WIN_PREFIX))] + [("tld-config",)]
     units += [("stream", u) for u in streams.plan(tier, fams=STREAM_FAMS)]
     units += core.interp_axis([("urlB", tier, len(SEGS)), ("urlB", tier, 1), ("win", tier, 0)])
     return units
@@ -305,6 +305,34 @@ def run_unit(unit, rec):
                     data = embed(url, e)
                     run_url(rec, data, {"kind": "url", "data": data})
         rec.sample({"family": "url-path", "last": data})
+    elif kind == "tld-config":
+        # the table of registered top-level domains is a public, mutable set (the only way to add a private TLD or drop a noisy one): host parts
+        # follow the table as it is when the scan runs - every history of <= 3 table operations, the URLs and UNC paths scanned after each
+        urls = [b"http://files.build.lan/x?q=1#f", b"ftp://u:p@archive.example.zip:21/a/../b", b"http://files.build.LAN/", b"https://example.com/a"]
+        wins = [b"\\\\files.build.lan\\share\\x.txt", b"\\\\archive.example.zip\\s\\y.dll"]
+        ops = [("add", b"LAN"), ("discard", b"LAN"), ("discard", b"ZIP"), ("add", b"ZIP")]
+        saved = set(TOP_LEVEL_DOMAINS)
+        n = 0
+        try:
+            for L in (0, 1, 2, 3):
+                for hist in itertools.product(range(len(ops)), repeat=L):
+                    TOP_LEVEL_DOMAINS.clear()
+                    TOP_LEVEL_DOMAINS.update(saved)
+                    for step in range(L + 1):
+                        for u in urls:
+                            data = b"see " + u + b" now"
+                            run_url(rec, data, {"kind": "tld-config", "history": [list(ops[i]) for i in hist[:step]], "data": data})
+                        for p_ in wins:
+                            data = b"open " + p_ + b" now"
+                            run_win(rec, data, {"kind": "tld-config", "history": [list(ops[i]) for i in hist[:step]], "data": data})
+                        n += 1
+                        if step < L:
+                            op, tld = ops[hist[step]]
+                            getattr(TOP_LEVEL_DOMAINS, op)(tld)
+        finally:
+            TOP_LEVEL_DOMAINS.clear()
+            TOP_LEVEL_DOMAINS.update(saved)
+        rec.sample({"family": "tld-table-histories", "operations": [list(o) for o in ops], "states_scanned": n})
     elif kind == "win":
         prefix = WIN_PREFIX[unit[2]]
         L = WIN_LEN[unit[1]]
@@ -321,6 +349,9 @@ def run_unit(unit, rec):
 
 
 def replay(w, rec):
+    if w.get("kind") == "tld-config":
+        run_unit(("tld-config",), rec)
+        return
     k = w.get("kind")
     if k == "url":
         run_url(rec, w["data"], w)
